@@ -50,7 +50,7 @@ def gen(rng):
     if op == 'clip':
         c['clip'] = [rng.randint(lo, 0) , rng.randint(0, hi)]
         # how the bounds are given: Python floats, one side only, NumPy integers of a narrow type (integral bounds), fixed-point objects
-        c['clip_kind'] = rng.choice(['float', 'float', 'lower_only', 'upper_only', 'npint', 'fxp', 'kw'])
+        c['clip_kind'] = rng.choice(['float', 'float', 'lower_only', 'upper_only', 'npint', 'fxp', 'fxp', 'kw']); c['vpath'] = rng.random() < 0.5
     if op == 'transpose' and rng.random() < 0.6:
         perm = list(range(len(shape))); rng.shuffle(perm); c['axes'] = perm
     return c
@@ -111,6 +111,7 @@ def run_cases(cases, res):
                 if kind == 'lower_only': z = x.clip(ba, None) if meth else np.clip(x, ba, None); b = hi_code(s, nw)
                 elif kind == 'upper_only': z = x.clip(None, bb) if meth else np.clip(x, None, bb); a = lo_code(s, nw)
                 elif kind == 'kw': z = x.clip(a_min=ba, a_max=bb) if meth else np.clip(x, min=ba, max=bb)
+                elif kind == 'fxp' and c.get('vpath'): z = x.clip(ba, bb, method='repr')      # fixed-point bounds on the value path
                 else: z = x.clip(ba, bb) if meth else np.clip(x, ba, bb)
                 exact = np.clip(arr.astype(np.int64), a, b).astype(object) * lsb; want_fmt = (s, nw, nf)
             elif op == 'transpose':
@@ -166,14 +167,54 @@ def run_cases(cases, res):
             if kind != 'ok' or mf != obs['fmt'] or mc != obs['codes']:
                 res.fail(c, 'model Reduce disagrees with the implementation although the property holds (%s)' % c['op'], expected=str(kind), got=(obs['fmt'], obs['codes'][:6])); res.failures[-1]['no_input'] = True
 
+def run_vpath_int(rng, n, res):
+    """the accumulating reductions by the value method (method='repr') on arrays built from integer VALUES in formats with a negative
+    fraction length: the integer values have n_word - n_frac bits each, sums and products of them leave int64 while the result word is small"""
+    fx = lib.impl(); import numpy as np
+    for _ in range(n):
+        nw = rng.choice([2, 3, 6, 12]); nf = -rng.choice([2, 12, 20, 40, 51]); k = rng.choice([2, 5, 8]); s = rng.random() < 0.3
+        lo, hi = S.fmt_bounds(s, nw); codes = [rng.choice([hi, hi, hi - 1, lo]) for _ in range(k)]
+        op = rng.choice(['prod', 'sum', 'cumsum', 'dot'])
+        if op == 'prod' and k * nw > 53: k = max(2, 53 // nw); codes = codes[:k]
+        c = {'f': [s, nw, nf], 'vcodes': codes, 'op': op}
+        vals = [cd * 2 ** (-nf) for cd in codes]
+        try:
+            x = fx.Fxp(vals, s, nw, nf)
+            z = {'prod': lambda: x.prod(method='repr'), 'sum': lambda: x.sum(method='repr'), 'cumsum': lambda: x.cumsum(method='repr'), 'dot': lambda: x.dot(x, method='repr')}[op]()
+            got = [Fraction(int(v)) / Fraction(2) ** int(z.n_frac) for v in np.asarray(z.val).reshape(-1).tolist()]; st = lib.status3(z)[:2]
+        except Exception as e:
+            res.fail(c, 'C15: %s by the value method raised %s' % (op, lib.exc_name(e)), got=str(e)[:200]); continue
+        if op == 'prod': want = [Fraction(math.prod(vals))]
+        elif op == 'sum': want = [Fraction(sum(vals))]
+        elif op == 'dot': want = [Fraction(sum(v * v for v in vals))]
+        else: want = [Fraction(sum(vals[:i + 1])) for i in range(len(vals))]
+        res.count('V:value-method-integer-values', key=repr(c), nontrivial=True)
+        if got != want or st != (False, False):
+            res.fail(c, 'C15: %s by the value method on integer-valued elements with a negative fraction length is not the exact result (an int64 intermediate wrapped)' % op, expected=[str(w) for w in want], got=([str(g) for g in got], st))
+
 def shard(shard, nshards, rng, tier, extra):
     res = Result()
     run_cases([gen(rng) for _ in range((5000 if tier == 'quick' else 120000) // nshards)], res)
+    run_vpath_int(rng, (300 if tier == 'quick' else 8000) // nshards, res)
     return res
 
 def run(seed, tier):
     return run_sharded('c15', 'shard', 16, seed, tier)
 def classify(fl): return None
+def replay_vpath(c):
+    import random
+    res = Result(); fx = lib.impl(); import numpy as np
+    s, nw, nf = c['f']; vals = [cd * 2 ** (-nf) for cd in c['vcodes']]; op = c['op']
+    try:
+        x = fx.Fxp(vals, s, nw, nf)
+        z = {'prod': lambda: x.prod(method='repr'), 'sum': lambda: x.sum(method='repr'), 'cumsum': lambda: x.cumsum(method='repr'), 'dot': lambda: x.dot(x, method='repr')}[op]()
+        got = [Fraction(int(v)) / Fraction(2) ** int(z.n_frac) for v in np.asarray(z.val).reshape(-1).tolist()]
+    except Exception as e:
+        return {'holds': False, 'failures': [str(e)]}
+    want = [Fraction(math.prod(vals))] if op == 'prod' else ([Fraction(sum(vals))] if op == 'sum' else ([Fraction(sum(v * v for v in vals))] if op == 'dot' else [Fraction(sum(vals[:i + 1])) for i in range(len(vals))]))
+    return {'holds': got == want and lib.status3(z)[:2] == (False, False), 'failures': [] if got == want else ['value differs']}
+
 def replay(payload):
+    if 'vcodes' in payload.get('case', {}): return replay_vpath(payload['case'])
     res = Result(); run_cases([payload['case']], res)
     return {'holds': not res.failures, 'failures': res.failures}
